@@ -312,7 +312,13 @@ def judge (_id : String) (lines : Array String) : Verdict := Id.run do
   let ctlSlack := 40
   let barrierCtl := kinds.any isBarrier && stop != .close && (cls == .gated || cls == .immediate) && !isFork
   let pB := if barrierCtl then simulate (step { cfg with cap := edgeCap - ctlSlack }) topo.decl kinds cls n 0 else pS
-  let canHang := !pS.returned || !pP.returned || !pF.returned
+  -- finding `periodic-barrier-delete-deadlock` (deviation clause: a barrier().period().delete(TRUE) node in the chain and
+  -- a schedule class with back-pressure, so that the node's own input edge can be full when its timer fires): the node
+  -- goroutine waits in periodicBarrier.DeleteGroup -> Stop -> wg.Wait for the timer goroutine, which is blocked collecting
+  -- its next DeleteGroup message into that full edge, whose only consumer is the waiting node. Control messages are not
+  -- in the model, so the hang is accepted under the clause only.
+  let pbDead := !isFork && (chainT.splitOn ",").any (·.startsWith "pbarrier:") && (cls == .gated || cls == .immediate)
+  let canHang := !pS.returned || !pP.returned || !pF.returned || pbDead
   let mustHang := !pS.returned && !pP.returned && !pF.returned
   let anyFailed := pS.failed || pP.failed || pF.failed
   let mut br : List String := [clsT, stopT] ++ (kinds.drop 1 |>.map (fun k => match k with
@@ -325,6 +331,7 @@ def judge (_id : String) (lines : Array String) : Verdict := Id.run do
   if pS.deliv == pP.deliv && pF.deliv == pP.deliv then br := br ++ ["deterministic"] else br := br ++ ["interval"]
   if n > edgeCap then br := br ++ ["backlog>cap"]
   if barrierCtl then br := br ++ ["barrier-ctl-slack"]
+  if pbDead then br := br ++ ["pbarrier-backpressure"]
   if isFork then br := br ++ ["fork-tree-model", if anyFailed then "fork-branch-failed" else "fork-healthy"]
   else br := br ++ ["tree=chain"]
   let failFwd := if isFork then failAbove chainT else devFailForward input
@@ -382,6 +389,7 @@ def judge (_id : String) (lines : Array String) : Verdict := Id.run do
       -- explained by a recorded deviation?
       if clause == "stop-completes" then
         if devLoop input then return .known "loopback-stop-deadlock" detail
+        if pbDead then return .known "periodic-barrier-delete-deadlock" detail
         if devUdfFail input && !isFork then return .known "udf-above-failed-node-blocks-stop" detail
         return .specfail clause detail
       if clause == "accepted-points-delivered" then
